@@ -111,6 +111,21 @@ CHECKS = {
              "behind a waiting writer) is exercised, not specified",
         technique="Lean 4 inductive invariant over an acceptor of hook/API event traces + deterministic simulation of the real runtime",
         design="§5 C06"),
+    "C08": dict(
+        text="Lean 4 theorems about a task automaton that the stamped event log of real WorkPool runs must be accepted by: by induction over all "
+             "accepted histories every task body is entered at most once and every async task object is deleted at most once; a task runs only "
+             "if it was submitted and not after the pool was destroyed; call() returns only after its task finished; an async task object is "
+             "deleted only after it ran; when the destructor returns (and at the end) every accepted task has finished and every async task "
+             "object has been deleted exactly once. Tied to the code by generated programs on the real WorkPool (1..4 worker OS threads, thread "
+             "mode -1 / 0 / pooled, ring sizes 1..65536 incl. bursts larger than the ring) with photon-thread and plain-OS-thread submitters, "
+             "tasks that return, yield or sleep, and the pool destroyed right after the last submitter finished; an independent counting oracle "
+             "supplies failing programs",
+        note="trusted: Lean kernel + 3 standard axioms; PARTIAL: runs are real races on real time (a violation needing a rare interleaving is "
+             "found only with some probability; quick = 400 programs, thorough = 3000); use-after-free / double delete of task objects is observed "
+             "through the destructor counter, not through ASan (libphoton is not instrumented here); join_current_vcpu_into_workpool and "
+             "WorkPool::thread_migrate are not exercised",
+        technique="Lean 4 invariants over a task automaton + run-time trace validation of the real multi-vCPU runtime",
+        design="§5 C08"),
     "C09": dict(
         text="Lean 4 theorems about a specification automaton for photon::channel that every single-vCPU history of API calls and returns "
              "must be accepted by (a bounded FIFO for capacity > 0, a rendezvous for capacity 0): for every accepted history of a buffered "
